@@ -26,7 +26,22 @@ EVIDENCE = ROOT / "evidence"
 REPLAYS = ROOT / "replays"
 CORPUS = ROOT / "corpus"
 KNOWN = ROOT / "known_findings.json"
-REPO = Path(os.environ.get("VERIF_REPO", "/repo"))
+def _repo_root() -> Path:
+    """Root of the Open-Pectus tree the harness imports (normally /repo; a scratch worktree when
+    PYTHONPATH points at one, which is how seeded changes are evaluated without touching /repo)."""
+    if os.environ.get("VERIF_REPO"):
+        return Path(os.environ["VERIF_REPO"])
+    try:
+        import importlib.util
+        spec = importlib.util.find_spec("openpectus")
+        if spec is not None and spec.origin:
+            return Path(spec.origin).resolve().parent.parent
+    except Exception:
+        pass
+    return Path("/repo")
+
+
+REPO = _repo_root()
 
 ALLOWED_AXIOMS = {"propext", "Classical.choice", "Quot.sound"}
 FORBIDDEN = re.compile(
